@@ -24,6 +24,10 @@ type SFile struct {
 	Doc  Obj      `json:"doc"`
 	Defs []string `json:"defs,omitempty"` // object definitions carrying a marker
 	Refs []RefUse `json:"refs,omitempty"` // attributable refs (top-level properties of marker structs)
+	// BothDefs: the document has "$defs" (the real definitions) AND a legacy
+	// "definitions" block holding decoys under the same names; "#/$defs/X" must
+	// keep denoting the real ones. Refs into such a file are spelled "#/$defs/".
+	BothDefs bool `json:"both_defs,omitempty"`
 	// RootObj: the root is {"type":"object", properties...} and carries marker mk_<tag>.
 	RootObj bool `json:"root_obj"`
 }
@@ -152,27 +156,60 @@ func (f *SFile) Bytes(ko *KeyOrder) []byte {
 const RootPH = "@@ROOT@@"
 
 func subst(b []byte, prefix, root string) []byte {
-	return []byte(strings.ReplaceAll(string(b), RootPH, prefix+root))
+	return []byte(strings.ReplaceAll(string(b), RootPH, MapAbs(prefix, root, root)))
+}
+
+// MapAbs relocates an absolute path. A plain prefix is prepended to every path
+// (the whole file system moves rigidly); "=<dir>" RENAMES the world root to <dir>
+// (paths outside the root stay) - the schema directory gets another name as well as
+// another place, which is only possible when the working directory is inside it.
+func MapAbs(prefix, root, p string) string {
+	if strings.HasPrefix(prefix, "=") {
+		nr := prefix[1:]
+		if p == root {
+			return nr
+		}
+		if strings.HasPrefix(p, root+"/") {
+			return nr + p[len(root):]
+		}
+		return p
+	}
+	return prefix + p
+}
+
+// UnmapAbs is the inverse of MapAbs (used to compare output names).
+func UnmapAbs(prefix, root, p string) string {
+	if strings.HasPrefix(prefix, "=") {
+		nr := prefix[1:]
+		if p == nr {
+			return root
+		}
+		if strings.HasPrefix(p, nr+"/") {
+			return root + p[len(nr):]
+		}
+		return p
+	}
+	return strings.TrimPrefix(p, prefix)
 }
 
 // FSNodes renders the world with every absolute path prefixed by prefix
 // (relocation of the whole tree; "" = in place).
 func (w *World) FSNodes(prefix string, ko *KeyOrder) []simrt.Node {
 	var ns []simrt.Node
-	ns = append(ns, simrt.Node{Path: prefix + w.Root, Kind: "d"})
+	ns = append(ns, simrt.Node{Path: MapAbs(prefix, w.Root, w.Root), Kind: "d"})
 	for _, f := range w.Files {
 		var k *KeyOrder
 		if ko != nil {
 			k = &KeyOrder{Choices: ko.Choices}
 		}
-		ns = append(ns, simrt.Node{Path: prefix + filepath.Join(w.Root, f.Rel()), Kind: "f", Data: subst(f.Bytes(k), prefix, w.Root)})
+		ns = append(ns, simrt.Node{Path: MapAbs(prefix, w.Root, filepath.Join(w.Root, f.Rel())), Kind: "f", Data: subst(f.Bytes(k), prefix, w.Root)})
 	}
 	for _, l := range w.Links {
-		ns = append(ns, simrt.Node{Path: prefix + filepath.Join(w.Root, l.Path), Kind: "l", Target: l.Target})
+		ns = append(ns, simrt.Node{Path: MapAbs(prefix, w.Root, filepath.Join(w.Root, l.Path)), Kind: "l", Target: l.Target})
 	}
 	for _, e := range w.Extra {
 		n := e
-		n.Path = prefix + n.Path
+		n.Path = MapAbs(prefix, w.Root, n.Path)
 		ns = append(ns, n)
 	}
 	return ns
@@ -186,10 +223,10 @@ const DefaultMaxTicks = 200000
 func (w *World) Spec(prefix string, ko *KeyOrder, args []string) simrt.Spec {
 	a := w.Opts.Argv(args)
 	for i := range a {
-		a[i] = strings.ReplaceAll(a[i], RootPH, prefix+w.Root)
+		a[i] = strings.ReplaceAll(a[i], RootPH, MapAbs(prefix, w.Root, w.Root))
 	}
 	web := append([]simrt.WebEnt(nil), w.Web...)
-	return simrt.Spec{Args: a, Cwd: prefix + w.Cwd, FS: w.FSNodes(prefix, ko), Web: web, MaxTicks: DefaultMaxTicks}
+	return simrt.Spec{Args: a, Cwd: MapAbs(prefix, w.Root, w.Cwd), FS: w.FSNodes(prefix, ko), Web: web, MaxTicks: DefaultMaxTicks}
 }
 
 // ArgFor spells file f as a command-line argument relative to cwd.
@@ -297,6 +334,12 @@ var multiBias bool
 // C10 would otherwise keep reporting.
 var comboDefs = true
 
+// SelfNamedDefs (C12 only): a definition named like the file's root type makes the
+// tool drop the root type silently (documented mechanism: "root type skipped if name
+// already declared"), which would make defect positions under the root unreachable
+// for C18 and markers disappear for C20/C10.
+var SelfNamedDefs = false
+
 func genWorld(t *rapid.T, maxFiles int, recCombo, http, shadows bool) *World {
 	feat := drawFeat(t)
 	if multiBias || shadows {
@@ -340,7 +383,7 @@ func genWorld(t *rapid.T, maxFiles int, recCombo, http, shadows bool) *World {
 			f.Dir = rapid.SampledFrom(dirsPool).Draw(t, "dir")
 		}
 		ext := ".json"
-		if feat.YAML && rapid.IntRange(0, 2).Draw(t, "yaml") == 0 {
+		if feat.YAML && rapid.IntRange(0, 1).Draw(t, "yaml") == 0 {
 			f.YAML = true
 			ext = rapid.SampledFrom([]string{".yaml", ".yml"}).Draw(t, "yext")
 		}
@@ -358,6 +401,7 @@ func genWorld(t *rapid.T, maxFiles int, recCombo, http, shadows bool) *World {
 			f.Defs = append(f.Defs, fmt.Sprintf("%sD%c", strings.ToUpper(f.Tag[:1])+f.Tag[1:], 'a'+d))
 		}
 		f.RootObj = !(feat.TypelessRoot && rapid.IntRange(0, 3).Draw(t, "typeless") == 0)
+		f.BothDefs = rapid.IntRange(0, 99).Draw(t, "bothdefs") < 12
 		w.Files = append(w.Files, f)
 	}
 	if feat.SharedDef {
@@ -471,9 +515,10 @@ func drawOptions(t *rapid.T, w *World, npkg int) Options {
 	o.Extra = b("extra", 35)
 	o.OnlyModels = b("onlymodels", 15)
 	o.MinSized = b("minsized", 35)
-	o.TitleNames = false
+	o.TitleNames = w.Feat.Docs && b("titlenames", 25)
 	if b("tags", 20) {
-		o.Tags = rapid.SampledFrom([][]string{{"json"}, {"yaml"}, {"json", "yaml"}, {"json", "mapstructure"}}).Draw(t, "tagset")
+		o.Tags = rapid.SampledFrom([][]string{{"json"}, {"yaml"}, {"json", "yaml"}, {"json", "mapstructure"},
+			{"json", "toml", "bson", "db"}, {"yaml", "xml", "json", "custom_a", "custom_b"}, {"mapstructure", "json", "zz", "aa"}}).Draw(t, "tagset")
 	}
 	if b("caps", 15) {
 		o.Caps = []string{"ID", "URL"}
@@ -510,8 +555,15 @@ func drawOptions(t *rapid.T, w *World, npkg int) Options {
 			o.SchemaPkg = append(o.SchemaPkg, Pair{f.ID, pp})
 			o.SchemaOut = append(o.SchemaOut, Pair{f.ID, fmt.Sprintf("out/pk%d/gen.go", f.Pkg)})
 		}
-		if o.Output == "" || o.Output == "-" {
+		if (o.Output == "" || o.Output == "-") && !b("stdoutdefault", 30) {
 			o.Output = "out/main/gen.go"
+		}
+	}
+	if npkg > 1 {
+		for _, f := range w.Files {
+			if f.ID != "" && f.Pkg > 0 && b("rootnamepk", 15) {
+				o.SchemaRoot = append(o.SchemaRoot, Pair{f.ID, "Root" + strings.ToUpper(f.Tag)})
+			}
 		}
 	} else if len(w.Files) > 0 && w.Files[0].ID != "" && b("rootname", 15) {
 		o.SchemaRoot = append(o.SchemaRoot, Pair{w.Files[0].ID, "Root" + strings.ToUpper(w.Files[0].Tag)})
@@ -566,7 +618,7 @@ func (g *genCtx) genDoc() {
 		doc = append(doc, KV{"title", "Title " + f.Tag})
 	}
 	defsKey := "$defs"
-	if g.pct("legacydefs", 35) {
+	if !f.BothDefs && g.pct("legacydefs", 35) {
 		defsKey = "definitions"
 	}
 	defs := Obj{}
@@ -610,6 +662,22 @@ func (g *genCtx) genDoc() {
 			comboDefRefs = append(comboDefRefs, up+"Cd")
 		}
 	}
+	if SelfNamedDefs && g.feat.Twins && !isSpecial(f) && f.RootObj && g.pct("selfnamed", 50) {
+		// a definition named like the root type derived from the file name (t0f.json ->
+		// T0FJson, or T0F when .json is a --resolve-extension): the name is taken when the
+		// root type's turn comes; whatever the tool does then must not depend on how or
+		// where the file was named
+		ext := filepath.Ext(f.Base)
+		stem := strings.TrimSuffix(f.Base, ext)
+		name := strings.ToUpper(stem[:1]) + stem[1:2] + strings.ToUpper(stem[2:3]) + strings.ToUpper(ext[1:2]) + ext[2:]
+		for _, e := range g.w.Opts.ResolveExt {
+			if e == ext {
+				name = strings.ToUpper(stem[:1]) + stem[1:2] + strings.ToUpper(stem[2:3])
+				break
+			}
+		}
+		defs = append(defs, KV{name, Obj{{"type", "object"}, {"properties", Obj{{"selfnamed", Obj{{"type", "boolean"}}}}}}})
+	}
 	var twinRefs []string
 	var nameClash *RefUse
 	if g.feat.Twins && g.feat.PlainMarkers && !isSpecial(f) && len(f.Defs) > 0 && f.RootObj {
@@ -641,7 +709,7 @@ func (g *genCtx) genDoc() {
 						f.Defs = append(f.Defs, clash)
 						defs = append(defs, KV{clash, Obj{{"type", "object"}, {"properties", Obj{{"mk_" + f.Tag + "_" + clash, Obj{{"type", "string"}}}, {"clashonly", Obj{{"type", "boolean"}}}}}}})
 						g.nprop++
-						nameClash = &RefUse{FromTag: f.Tag, Prop: fmt.Sprintf("%sr%d", f.Tag, g.nprop), Ref: "#/$defs/" + clash, ToTag: f.Tag, ToDef: clash, Spelling: "fragment", LocalOnly: true}
+						nameClash = &RefUse{FromTag: f.Tag, Prop: fmt.Sprintf("%sr%d", f.Tag, g.nprop), Ref: "#/$defs/" + clash, ToTag: f.Tag, ToDef: clash, Spelling: "nameclash", LocalOnly: true}
 						break
 					}
 				}
@@ -697,6 +765,17 @@ func (g *genCtx) genDoc() {
 	}
 	if len(defs) > 0 {
 		doc = append(doc, KV{defsKey, defs})
+	}
+	if f.BothDefs && len(defs) > 0 {
+		decoys := Obj{}
+		for _, kv := range defs {
+			decoys = append(decoys, KV{kv.K, Obj{{"type", "object"}, {"properties", Obj{{"legacy_decoy_" + f.Tag, Obj{{"type", "integer"}}}}}, {"required", []any{"legacy_decoy_" + f.Tag}}}})
+		}
+		if g.pct("decoysfirst", 50) {
+			doc = append(Obj{{"definitions", decoys}}, doc...)
+		} else {
+			doc = append(doc, KV{"definitions", decoys})
+		}
 	}
 	f.Doc = doc
 }
@@ -847,7 +926,7 @@ func (g *genCtx) drawRef(fromDef string) (RefUse, bool) {
 	ru := RefUse{FromTag: f.Tag, FromDef: fromDef, Prop: fmt.Sprintf("%sr%d", f.Tag, g.nprop), ToTag: tg.file.Tag, ToDef: tg.def}
 	frag := ""
 	if tg.def != "" {
-		if g.pct("fragdefs", 30) {
+		if !tg.file.BothDefs && g.pct("fragdefs", 30) {
 			frag = "#/definitions/" + tg.def
 		} else {
 			frag = "#/$defs/" + tg.def
@@ -1284,7 +1363,7 @@ func (g *genCtx) genCombo(kw string) any {
 func (g *genCtx) localFrag(d string) string {
 	// the file's own definitions keyword is decided in genDoc; both spellings
 	// resolve against Definitions, so either is legal
-	if g.pct("legacyfrag", 30) {
+	if !g.f.BothDefs && g.pct("legacyfrag", 30) {
 		return "#/definitions/" + d
 	}
 	return "#/$defs/" + d
